@@ -193,9 +193,12 @@ def main(prop, tier, seed):
     drv = common.Driver()
     try:
         thorough = tier == "thorough"
-        check_stencils(run, drv, ti)
-        check_integrate(run, drv, ti, 6000 if thorough else 500, 2000 if thorough else 300)
-        check_cubic(run, ti, 2000 if thorough else 200)
+        with common.guard(run, "integration stencils"):
+            check_stencils(run, drv, ti)
+        with common.guard(run, "cumulative integration"):
+            check_integrate(run, drv, ti, 6000 if thorough else 500, 2000 if thorough else 300)
+        with common.guard(run, "cubic exactness"):
+            check_cubic(run, ti, 2000 if thorough else 200)
     finally:
         drv.close()
     return run.finish(aud, ASSUMPTIONS, RULE)
